@@ -37,11 +37,57 @@ type bodyWrite struct {
 	kind string
 }
 
-func bodyWrites(fn *ssa.Function) []bodyWrite {
+// respWriterHelper: an unexported, named function that is not itself a handler (signature other than
+// (ResponseWriter, *Request)) and writes to a ResponseWriter it receives as a parameter.  Its writes are attributed to
+// its call sites (the headers are the caller's business); it returns the kinds of those writes.
+func respWriterHelper(f *ssa.Function, depth int) []string {
+	if f == nil || depth > 3 || !core.InModule(f) || f.Parent() != nil || f.Object() == nil || f.Object().Exported() || len(f.Blocks) == 0 {
+		return nil
+	}
+	sig := f.Signature
+	if sig.Recv() != nil {
+		return nil
+	}
+	hasW := false
+	for i := 0; i < sig.Params().Len(); i++ {
+		if isRespWriter(sig.Params().At(i).Type()) {
+			hasW = true
+		}
+	}
+	if !hasW || (sig.Params().Len() == 2 && types.TypeString(sig.Params().At(1).Type(), nil) == "*net/http.Request") {
+		return nil
+	}
+	var kinds []string
+	for _, w := range bodyWritesDepth(f, depth+1) {
+		if call, ok := w.in.(*ssa.Call); ok {
+			var recv ssa.Value
+			if call.Call.IsInvoke() {
+				recv = call.Call.Value
+			} else if len(call.Call.Args) > 0 {
+				recv = core.StripConv(call.Call.Args[0])
+			}
+			if _, isPar := recv.(*ssa.Parameter); !isPar {
+				return nil // writes to something else than its parameter: checked in place
+			}
+		}
+		kinds = append(kinds, w.kind)
+	}
+	return kinds
+}
+
+func bodyWrites(fn *ssa.Function) []bodyWrite { return bodyWritesDepth(fn, 0) }
+
+func bodyWritesDepth(fn *ssa.Function, depth int) []bodyWrite {
 	var out []bodyWrite
 	core.EachInstr(fn, func(in ssa.Instruction) {
 		call, ok := in.(*ssa.Call)
 		if !ok {
+			return
+		}
+		if kinds := respWriterHelper(call.Call.StaticCallee(), depth); len(kinds) > 0 {
+			for _, k := range kinds {
+				out = append(out, bodyWrite{in, k})
+			}
 			return
 		}
 		if call.Call.IsInvoke() && isRespWriter(call.Call.Value.Type()) {
@@ -110,7 +156,7 @@ func runC19(c *Ctx) {
 	counts := map[string]int{}
 	for _, fn := range fns {
 		bw := bodyWrites(fn)
-		if len(bw) == 0 || fn == setHeader {
+		if len(bw) == 0 || fn == setHeader || len(respWriterHelper(fn, 0)) > 0 {
 			continue
 		}
 		var sh []ssa.Instruction
@@ -211,17 +257,21 @@ func runC19(c *Ctx) {
 				if h.key != "Content-Type" {
 					continue
 				}
-				var pol, found bool
-				for _, a := range core.GuardAtoms(h.call.Block()) {
-					if a.LV == cbVal && a.R == `""` {
-						found = true
-						pol = a.Op == "!="
+				// the value may be selected before the call (contentType := json; if jsonp { contentType = javascript })
+				for _, vc := range core.ValueCases(h.call.Call.Args[2], h.call.Block()) {
+					val, _ := core.ConstString(vc.Val)
+					var pol, found bool
+					for _, a := range vc.Atoms {
+						if a.LV == cbVal && a.R == `""` {
+							found = true
+							pol = a.Op == "!="
+						}
 					}
+					want := map[bool]string{true: "application/javascript", false: "application/json"}[pol]
+					R.Check(found && val == want, "C19.envelope", "http|jsonHandler$1|content-type|"+val, P.InstrPos(h.call),
+						"Content-Type "+val+" selected by callback "+map[bool]string{true: "present", false: "absent"}[pol],
+						fmt.Sprintf("Content-Type %q is set on the branch where the callback is %s (expected %q)", val, map[bool]string{true: "present", false: "absent"}[pol], want), nil)
 				}
-				want := map[bool]string{true: "application/javascript", false: "application/json"}[pol]
-				R.Check(found && h.val == want, "C19.envelope", "http|jsonHandler$1|content-type|"+h.val, P.InstrPos(h.call),
-					"Content-Type "+h.val+" selected by callback "+map[bool]string{true: "present", false: "absent"}[pol],
-					fmt.Sprintf("Content-Type %q is set on the branch where the callback is %s (expected %q)", h.val, map[bool]string{true: "present", false: "absent"}[pol], want), nil)
 			}
 			// body form per branch
 			for _, w := range bodyWrites(cl) {
@@ -245,12 +295,12 @@ func runC19(c *Ctx) {
 					format, _ := core.ConstString(call.Call.Args[1])
 					args := variadicArgs(call.Call.Args[len(call.Call.Args)-1])
 					ok := w.kind == "fmt.Fprintf" && format == "%s(%s)" && len(args) == 2 &&
-						core.StripConv(args[0]) == cbVal && derivesFromFreeVar(args[1], "b")
+						core.StripConv(args[0]) == cbVal && derivesFromMarshalled(args[1])
 					R.Check(ok, "C19.envelope", key, P.InstrPos(w.in),
 						"with a callback the body is callback(json)",
 						fmt.Sprintf("with a callback the body is not fmt.Fprintf(w, \"%%s(%%s)\", callback, json) (format %q, %d args)", format, len(args)), nil)
 				} else {
-					ok := w.kind == "Write" && len(call.Call.Args) == 1 && derivesFromFreeVar(call.Call.Args[0], "b")
+					ok := w.kind == "Write" && len(call.Call.Args) == 1 && derivesFromMarshalled(call.Call.Args[0])
 					R.Check(ok, "C19.envelope", key, P.InstrPos(w.in),
 						"without a callback the body is the raw JSON", "without a callback the body is not the marshalled JSON bytes", nil)
 				}
@@ -266,7 +316,7 @@ func runC19(c *Ctx) {
 		for _, k := range kinds {
 			var ta *ssa.TypeAssert
 			core.EachInstr(errFn, func(in ssa.Instruction) {
-				if t, ok := in.(*ssa.TypeAssert); ok && t.CommaOk && core.Path(t.X) == errFn.Params[1].Name() &&
+				if t, ok := in.(*ssa.TypeAssert); ok && t.CommaOk && core.Path(t.X) == core.ParamName(errFn.Params[1]) &&
 					strings.HasSuffix(types.TypeString(t.AssertedType, nil), "http."+k.typ) {
 					ta = t
 				}
@@ -383,18 +433,17 @@ func runC19(c *Ctx) {
 					return
 				}
 				st := call.Call.Args[2]
-				if phi, isPhi := st.(*ssa.Phi); isPhi {
-					has500, hasStatus := false, false
-					for _, e := range phi.Edges {
-						if n, isC := core.ConstInt(e); isC && n == 500 {
-							has500 = true
-						}
-						if sc, isCall := e.(*ssa.Call); isCall && sc.Call.IsInvoke() && sc.Call.Method.Name() == "Status" {
-							hasStatus = true
-						}
+				has500, hasStatus, other := false, false, false
+				for _, e := range core.ValueLeaves(st) {
+					if n, isC := core.ConstInt(e); isC && n == 500 {
+						has500 = true
+					} else if sc, isCall := e.(*ssa.Call); isCall && sc.Call.IsInvoke() && sc.Call.Method.Name() == "Status" {
+						hasStatus = true
+					} else {
+						other = true
 					}
-					ok = has500 && hasStatus
 				}
+				ok = has500 && hasStatus && !other
 			})
 			R.Check(ok, "C19.dispatch", "http|Error|plain-path", P.Pos(plain.Pos()),
 				"plain errors answer 500 unless the error carries its own HTTP status",
@@ -637,22 +686,52 @@ func isParamIdentity(v ssa.Value, p *ssa.Parameter, d int) bool {
 	return false
 }
 
-// derivesFromFreeVar: the value is (a conversion of) a load of the closure's free variable named name.
-func derivesFromFreeVar(v ssa.Value, name string) bool {
+// derivesFromMarshalled: the value is (a conversion of) the closure's captured variable that holds the result of
+// encoding/json.Marshal in the enclosing function (every store to it is result #0 of that call).
+func derivesFromMarshalled(v ssa.Value) bool {
 	v = core.StripConv(v)
+	var fv *ssa.FreeVar
 	switch x := v.(type) {
 	case *ssa.Convert:
-		return derivesFromFreeVar(x.X, name)
+		return derivesFromMarshalled(x.X)
+	case *ssa.MakeInterface:
+		return derivesFromMarshalled(x.X)
 	case *ssa.UnOp:
-		if fv, ok := x.X.(*ssa.FreeVar); ok && x.Op == token.MUL {
-			return fv.Name() == name
+		if f, ok := x.X.(*ssa.FreeVar); ok && x.Op == token.MUL {
+			fv = f
 		}
 	case *ssa.FreeVar:
-		return x.Name() == name
-	case *ssa.MakeInterface:
-		return derivesFromFreeVar(x.X, name)
+		fv = x
 	}
-	return false
+	if fv == nil {
+		return false
+	}
+	isMarshal := func(val ssa.Value) bool {
+		ex, ok := core.StripConv(val).(*ssa.Extract)
+		if !ok || ex.Index != 0 {
+			return false
+		}
+		call, ok := ex.Tuple.(*ssa.Call)
+		return ok && call.Call.StaticCallee() != nil && core.FullName(call.Call.StaticCallee()) == "json.Marshal" &&
+			call.Call.StaticCallee().Pkg != nil && call.Call.StaticCallee().Pkg.Pkg.Path() == "encoding/json"
+	}
+	b := core.FreeVarBinding(fv)
+	if b == nil {
+		return false
+	}
+	if al, ok := b.(*ssa.Alloc); ok {
+		n := 0
+		for _, ref := range *al.Referrers() {
+			if st, ok := ref.(*ssa.Store); ok && st.Addr == al {
+				if !isMarshal(st.Val) {
+					return false
+				}
+				n++
+			}
+		}
+		return n > 0
+	}
+	return isMarshal(b)
 }
 
 // variadicArgs returns the elements stored into the literal array behind a variadic slice.
